@@ -75,7 +75,11 @@ def _mk_context(case, log, fail):
     SimulationContext._clear_context_cache()
     plugins = {"required": {"clock": {"controller": "vivarium.framework.time.SimpleClock",
                                       "builder_interface": "vivarium.framework.time.TimeInterface"}}}
-    return SimulationContext(
+    cls = SimulationContext
+    if case.get("interactive"):
+        from vivarium.interface.interactive import InteractiveContext
+        cls = lambda **kw: InteractiveContext(setup=False, **kw)      # noqa: E731
+    return cls(
         components=[Probe()],
         configuration={"population": {"population_size": case.get("pop", 2)},
                        "time": {"start": case["start"], "end": case["stop"], "step_size": case["step"]}},
@@ -108,6 +112,12 @@ class C06(Prop):
             out.append({"kind": "ctx", "start": 0, "stop": 2, "step": 1,
                         "ops": prefix + ["set:" + s for s in ENGINE_STATES if s not in LEGAL_NEXT_AFTER(prefix)] + legal[len(prefix):]})
             prefix = prefix + [nxt]
+        ilegal = ["call:setup", "call:step", "call:step", "call:finalize", "call:report"]
+        out.append({"kind": "ctx", "start": 0, "stop": 2, "step": 1, "ops": ilegal, "interactive": True})
+        out.append({"kind": "ctx", "start": 0, "stop": 3, "step": 1, "interactive": True,
+                    "ops": ["call:step", "call:setup", "call:initialize_simulants", "call:setup", "run", "run", "call:finalize", "call:step", "call:report"]})
+        out.append({"kind": "lc", "phases": [["e", [], True], ["a", ["x"], True], ["b", [], False], ["c", ["y", "z"], False]],
+                    "reqs": ["x", "x", "y", "z", "x"]})
         for ev in ENGINE_STATES[4:8]:
             pre = ["call:setup", "call:initialize_simulants", "call:step", "fail:" + ev, "call:step"]
             out.append({"kind": "ctx", "start": 0, "stop": 5, "step": 1,
@@ -141,14 +151,21 @@ class C06(Prop):
             else:
                 ops.append(legal[j])
                 j += 1
-        return {"kind": "ctx", "start": 0, "stop": stop, "step": step, "ops": ops}
+        interactive = rng.random() < 0.35
+        if interactive:
+            # InteractiveContext.setup() also creates the population; a separate initialize_simulants call is then illegal
+            ops = [o for k, o in enumerate(ops) if not (o == "call:initialize_simulants" and k == ops.index("call:initialize_simulants")
+                                                       and "call:setup" in ops[:k])]
+        return {"kind": "ctx", "start": 0, "stop": stop, "step": step, "ops": ops, "interactive": interactive}
 
     def _gen_lc(self, rng):
         names = [f"s{k}" for k in range(8)] + ["initialization"]
         phases, used = [], 0
         for p in range(rng.randint(1, 4)):
             k = rng.randint(1, 3)
-            if rng.random() < 0.15:
+            if rng.random() < 0.08:
+                states = []                                         # empty phase (rejected: nothing to enter)
+            elif rng.random() < 0.15:
                 states = [rng.choice(names) for _ in range(k)]      # may duplicate (rejected)
             else:
                 states = [f"s{used + q}" for q in range(k)]
@@ -206,7 +223,7 @@ class C06(Prop):
                 if op.startswith("fail:"):
                     fail["on"] = op[5:]        # the probe's listener of that event raises at its next emission
                 elif op == "run":
-                    sim.run()
+                    sim.run(with_logging=False) if case.get("interactive") else sim.run()
                 elif op.startswith("call:"):
                     getattr(sim, op[5:])(**({"print_results": False} if op == "call:report" else {}))
                 else:
@@ -228,6 +245,9 @@ class C06(Prop):
             return L
         L = [f"ctx new {case['start']} {case['step']} {case['stop']}"]
         for op in case["ops"]:
+            if op == "call:setup" and case.get("interactive"):
+                L.append("ctx isetup")
+                continue
             L.append("ctx run" if op == "run" else ("ctx call " + op[5:] if op.startswith("call:") else
                                                      "ctx fail " + op[5:] if op.startswith("fail:") else "ctx set " + op[4:]))
         return L
@@ -295,6 +315,8 @@ class C06(Prop):
                     fails.append({"sig": "direct-request-state", "msg": f"op #{i} {op} from {cur} ({o}): state {st}"})
             else:
                 # emitted events must form a legal path from cur ending at st (through setup for setup())
+                if case.get("interactive") and op == "call:setup" and o == "ok" and st != "population_creation":
+                    fails.append({"sig": "interactive-setup-state", "msg": f"op #{i} setup() on an InteractiveContext ended in {st}"})
                 path_ok, s = True, cur
                 seq = list(visited)
                 for v in seq:
@@ -341,6 +363,7 @@ class C06(Prop):
     def tags(self, case, obs):
         t = [case["kind"]]
         if case["kind"] == "ctx":
+            t.append("interactive-context" if case.get("interactive") else "simulation-context")
             for op, (o, st, _, ev) in zip(case["ops"], obs["ops"]):
                 t.append(("ok:" if o == "ok" else "refused:") + op.split(":")[0])
                 if st in ENGINE_STATES[4:7] and op != "fail":
